@@ -4,21 +4,36 @@
    The model (Model/Combine.v) takes the per-agent files as vocabulary dumps, in discovery order.
    Full statement:
      - C17_union_domains / C17_union_problems: for files that agree on shared names the combination is
-       exactly the union of the sections, each name / fact / goal once;
+       exactly the union of types, constants, predicates, functions, actions / objects, facts, fluent
+       values, goals, numeric goals -- each name / fact / goal once;
      - C17_union_domains_weak: without agreement the names are still the union, each once, and every entry
-       is some file's entry (which one: the last file's; C17_order_needs_agreement shows the hypothesis of
-       the order theorem cannot be dropped);
+       is some file's entry (C17_order_needs_agreement: the hypothesis of the order theorem cannot be dropped);
+     - C17_goals_once: goals and numeric goals never occur twice, whatever the files contain
+       (C17_ngoals_twice_before_repair: false of the code before the repair of D27);
      - C17_dummy: the dummy actions add exactly three entries;
-     - C17_order_domains / C17_order_problems: any permutation of the files gives an equivalent combination;
+     - C17_order_domains / C17_order_problems: any permutation of the files gives an equivalent combination
+       (same maps / sets in every section the property names);
+     - C17_name_reqs_last / C17_pname_last / C17_reqs_follow_order: the domain name, the requirements and
+       the problem name are NOT part of the union: they are those of the file found last (the property
+       text does not speak about them; recorded so that the reader sees what the order theorem leaves out);
      - C17_no_leak / C17_fresh_after / C17_store_refines: in the store model of DEFAULT_TYPES nothing that
        existed before the call is written, a later Domain() starts as before (holds of the repaired
        initialiser `dict(DEFAULT_TYPES)`; C17_leak_when_aliased: fails of the pinned `self.types =
        DEFAULT_TYPES`, deviation D18).
-   "Exporting and re-parsing preserves the combination" is C08/C09's theorem; for C17 it is checked on
-   every case of the correspondence run (export, re-parse, compare the maps). *)
+     - C17_wellformed_domains / C17_wellformed_problems: the combination of well-formed files (every type /
+       predicate / function / constant / object an entry names is declared) is well-formed, also without
+       agreement; hence C17_roundtrip_domains / C17_roundtrip_problems: RELATIVE to the export/re-parse round
+       trip -- for any function that returns an equivalent domain (problem) on well-formed input, the
+       combination of well-formed files comes back equivalent.
+   "Exporting and re-parsing preserves a domain/problem" itself is C08/C09's theorem (Model/DomainExporter.v and
+   Model/ProblemExporter.v belong to those properties and did not exist when this file was written), so the
+   round trip enters here as a quantified function with its C08/C09 contract as hypothesis; for C17 the real
+   exporters are tied by correspondence only: on every case of the run the combination is exported by the
+   implementation, re-parsed, and its sections compared. *)
 From Coq Require Import List String Permutation.
 From Verif Require Import Base.Result Base.Str Model.Combine Spec.Combine
-  Proofs.C17_Dict Proofs.C17_Domains Proofs.C17_Problems Proofs.C17_Store Proofs.C17_Checkers.
+  Proofs.C17_Dict Proofs.C17_Domains Proofs.C17_Problems Proofs.C17_Store Proofs.C17_Checkers
+  Proofs.C17_WellFormed.
 Import ListNotations.
 Open Scope string_scope.
 
@@ -51,23 +66,43 @@ Theorem C17_goals_once : forall files : list problemv,
   NoDup (p_goals (combine_problems files)) /\ NoDup (p_ngoals (combine_problems files)).
 Proof. exact C17_goals_once_lemma. Qed.
 
+Theorem C17_ngoals_twice_before_repair :
+  exists files, problem_files_ok files /\ ~ NoDup (p_ngoals (combine_problems_identity files)).
+Proof. exact C17_ngoals_twice_before_repair_lemma. Qed.
+
 (* ---------------------------------------------------------------- order *)
 Theorem C17_order_domains : forall (defaults : alist) (files files' : list domainv),
-  NoDup (keys defaults) -> sections_agree defaults files -> same_name files ->
+  NoDup (keys defaults) -> sections_agree defaults files ->
   Permutation files files' ->
   domain_equiv (combine_domains defaults files) (combine_domains defaults files').
 Proof. exact C17_order_domains_lemma. Qed.
 
 Theorem C17_order_problems : forall files files' : list problemv,
-  problem_files_ok files -> same_pname files -> Permutation files files' ->
+  problem_files_ok files -> Permutation files files' ->
   problem_equiv (combine_problems files) (combine_problems files').
 Proof. exact C17_order_problems_lemma. Qed.
 
 Theorem C17_order_needs_agreement :
   exists defaults f g,
-    NoDup (keys defaults) /\ same_name [f; g] /\
+    NoDup (keys defaults) /\
     ~ domain_equiv (combine_domains defaults [f; g]) (combine_domains defaults [g; f]).
 Proof. exact C17_order_needs_agreement_lemma. Qed.
+
+(* name and requirements: last file found (outside the property's union) *)
+Theorem C17_name_reqs_last : forall (defaults : alist) (files : list domainv),
+  d_name (combine_domains defaults files) = last (map d_name files) None /\
+  d_reqs (combine_domains defaults files) = last (map d_reqs files) [].
+Proof. exact C17_name_reqs_last_lemma. Qed.
+
+Theorem C17_pname_last : forall files : list problemv,
+  p_name (combine_problems files) = last (map p_name files) "".
+Proof. exact C17_pname_last_lemma. Qed.
+
+Theorem C17_reqs_follow_order :
+  sections_agree ex_defaults [ex_a; ex_b] /\
+  d_reqs (combine_domains ex_defaults [ex_a; ex_b]) = [":typing"] /\
+  d_reqs (combine_domains ex_defaults [ex_b; ex_a]) = [":typing"; ":numeric-fluents"].
+Proof. exact C17_reqs_follow_order_lemma. Qed.
 
 (* ---------------------------------------------------------------- nothing else is disturbed *)
 Theorem C17_no_leak : forall (files : list domainv) (h : heap) (l : nat),
@@ -92,6 +127,44 @@ Theorem C17_leak_when_aliased :
     fresh_domain_types InitAlias (fst (locate_types_store InitAlias files h)) <> hget h 0.
 Proof. exact C17_leak_when_aliased_lemma. Qed.
 
+(* ---------------------------------------------------------------- export / re-parse, relative to C08 / C09 *)
+Theorem C17_wellformed_domains :
+  forall (refsT refsP refsF refsC : string -> list string) (defaults : alist) (files : list domainv),
+  NoDup (keys defaults) -> closed_in refsT defaults defaults ->
+  (forall f, In f files -> wf_domain refsT refsP refsF refsC f) ->
+  wf_domain refsT refsP refsF refsC (combine_domains defaults files).
+Proof. exact C17_wellformed_domains_lemma. Qed.
+
+Theorem C17_wellformed_problems : forall (refsO : string -> list string) (files : list problemv),
+  (forall f, In f files -> wf_problem refsO f) -> wf_problem refsO (combine_problems files).
+Proof. exact C17_wellformed_problems_lemma. Qed.
+
+Theorem C17_roundtrip_domains :
+  forall (refsT refsP refsF refsC : string -> list string) (rt_domain : domainv -> result domainv),
+  (forall c, wf_domain refsT refsP refsF refsC c -> exists c', rt_domain c = Ok c' /\ domain_equiv c c') ->
+  forall (defaults : alist) (files : list domainv),
+  NoDup (keys defaults) -> closed_in refsT defaults defaults ->
+  (forall f, In f files -> wf_domain refsT refsP refsF refsC f) ->
+  exists c', rt_domain (combine_domains defaults files) = Ok c' /\
+             domain_equiv (combine_domains defaults files) c'.
+Proof. exact C17_roundtrip_domains_lemma. Qed.
+
+Theorem C17_roundtrip_problems :
+  forall (refsO : string -> list string) (rt_problem : problemv -> result problemv),
+  (forall c, wf_problem refsO c -> exists c', rt_problem c = Ok c' /\ problem_equiv c c') ->
+  forall files : list problemv,
+  (forall f, In f files -> wf_problem refsO f) ->
+  exists c', rt_problem (combine_problems files) = Ok c' /\ problem_equiv (combine_problems files) c'.
+Proof. exact C17_roundtrip_problems_lemma. Qed.
+
+(* hypotheses satisfiable: the example files are well-formed under a concrete reading of the entry texts *)
+Theorem C17_example_wellformed :
+  closed_in ex_refsT ex_defaults ex_defaults /\
+  (forall f, In f [ex_a; ex_b] -> wf_domain ex_refsT ex_refsP ex_refsF ex_refsC f) /\
+  (forall f, In f [ex_pa; ex_pb] -> wf_problem ex_refsO f) /\
+  ex_refsT "(at ?a - agent ?l - loc)" = ["agent"; "loc"].
+Proof. exact (conj (proj1 ex_wf_domains) (conj (proj2 ex_wf_domains) (conj ex_wf_problems (proj1 ex_refs_nontrivial)))). Qed.
+
 (* ---------------------------------------------------------------- the checkers of the correspondence run are sound *)
 Theorem C17_union_checker_sound : forall (ds : list alist) (c : alist),
   union_of_b ds c = true -> union_of ds c.
@@ -107,14 +180,14 @@ Proof. exact set_union_of_b_sound. Qed.
 
 (* ---------------------------------------------------------------- hypotheses are satisfiable *)
 Theorem C17_example_domains :
-  NoDup (keys ex_defaults) /\ sections_agree ex_defaults [ex_a; ex_b] /\ same_name [ex_a; ex_b] /\
+  NoDup (keys ex_defaults) /\ sections_agree ex_defaults [ex_a; ex_b] /\
   List.length (d_types (combine_domains ex_defaults [ex_a; ex_b])) = 5.
-Proof. exact (conj ex_nodup (conj ex_agree (conj ex_same_name (proj2 (proj2 (proj2 (proj2 ex_overlap_and_private))))))). Qed.
+Proof. exact (conj ex_nodup (conj ex_agree (proj2 (proj2 (proj2 (proj2 ex_overlap_and_private)))))). Qed.
 
 Theorem C17_example_problems :
-  problem_files_ok [ex_pa; ex_pb] /\ same_pname [ex_pa; ex_pb] /\
+  problem_files_ok [ex_pa; ex_pb] /\
   p_ngoals (combine_problems [ex_pa; ex_pb]) = ["(>= (fuel t1) 2)"; "(>= (dist l1 l2) 2)"].
-Proof. exact (conj ex_problem_files_ok (conj ex_same_pname (proj1 (proj2 (proj2 ex_problem_shape))))). Qed.
+Proof. exact (conj ex_problem_files_ok (proj1 (proj2 (proj2 ex_problem_shape)))). Qed.
 
 Print Assumptions C17_union_domains.
 Print Assumptions C17_union_domains_weak.
@@ -122,6 +195,10 @@ Print Assumptions C17_dummy.
 Print Assumptions C17_dummy_total.
 Print Assumptions C17_union_problems.
 Print Assumptions C17_goals_once.
+Print Assumptions C17_ngoals_twice_before_repair.
+Print Assumptions C17_name_reqs_last.
+Print Assumptions C17_pname_last.
+Print Assumptions C17_reqs_follow_order.
 Print Assumptions C17_order_domains.
 Print Assumptions C17_order_problems.
 Print Assumptions C17_order_needs_agreement.
@@ -129,6 +206,11 @@ Print Assumptions C17_no_leak.
 Print Assumptions C17_fresh_after.
 Print Assumptions C17_store_refines.
 Print Assumptions C17_leak_when_aliased.
+Print Assumptions C17_wellformed_domains.
+Print Assumptions C17_wellformed_problems.
+Print Assumptions C17_roundtrip_domains.
+Print Assumptions C17_roundtrip_problems.
+Print Assumptions C17_example_wellformed.
 Print Assumptions C17_union_checker_sound.
 Print Assumptions C17_weak_union_checker_sound.
 Print Assumptions C17_set_union_checker_sound.
